@@ -114,3 +114,10 @@ impl<K: Ord + Copy, V: KeyValue<K>> SetCollection<K, V> for SetList<V> {
         self.buffer.clear();
     }
 }
+
+#[cfg(feature = "verif")]
+impl<V: Clone> SetList<V> {
+    pub fn verif_state(&self) -> Vec<V> {
+        self.buffer.clone()
+    }
+}
